@@ -323,3 +323,15 @@ def eps_of(p, k=10):
 
 def finish_meta(rep, extra):
     rep.coverage.update(extra)
+
+
+def fit_budget(insts, budget_s, per_s=3.0, floor=40):
+    """Keep every instance that is not predicted to pass (they need the ladder stage, which cert.certify runs last) and
+    at most `cap` of the predicted-pass ones, cap growing with the remaining time budget -- so that a slow generation
+    phase (loaded machine, degraded implementation) cannot starve the certification of the suspicious cases.
+    -> (kept, number dropped).  Dropped instances are reported as not attempted; they are never counted as passes."""
+    cap = max(floor, int(budget_s * per_s))
+    sus = [i for i in insts if i.hint != "pass"]
+    ok = [i for i in insts if i.hint == "pass"]
+    keep_ok = ok[:max(0, cap - len(sus))]
+    return sus + keep_ok, len(ok) - len(keep_ok)
